@@ -88,6 +88,22 @@ theorem mutant_ill_typed (k : Kind) (s : Site) (p p' : Prog)
     cases s with
     | nil => simp [mutate] at hm
     | cons i r => exact stmtCase i r rfl (by simpa [mutate] using hm)
+  | unknownKeyword y =>
+    cases s with
+    | nil => simp [mutate] at hm
+    | cons i r => exact stmtCase i r rfl (by simpa [mutate] using hm)
+  | tooManyPositional =>
+    cases s with
+    | nil => simp [mutate] at hm
+    | cons i r => exact stmtCase i r rfl (by simpa [mutate] using hm)
+  | keywordDupPositional =>
+    cases s with
+    | nil => simp [mutate] at hm
+    | cons i r => exact stmtCase i r rfl (by simpa [mutate] using hm)
+  | omitRequired =>
+    cases s with
+    | nil => simp [mutate] at hm
+    | cons i r => exact stmtCase i r rfl (by simpa [mutate] using hm)
 
 /-- a mutant is outside the declarative judgement -/
 theorem mutant_not_well_typed (k : Kind) (s : Site) (p p' : Prog)
@@ -147,6 +163,34 @@ theorem mutant_ill_typed_paramLacksOp (g : String) (s : Site) (p p' : Prog)
   obtain ⟨⟨k, s'⟩, h, hk, hs⟩ := mutant_ill_typed _ s p p' hok hm
   simp only [expectedKind] at hk hs; rw [h, hk, hs]
 
+/-- (a) a keyword argument whose name is not a parameter of the callee -/
+theorem mutant_ill_typed_unknownKeyword (y : String) (s : Site) (p p' : Prog)
+    (hok : typecheck p = .ok ()) (hm : mutate (.unknownKeyword y) s p = some p') :
+    typecheck p' = .error ⟨.unknownKeyword, s⟩ := by
+  obtain ⟨⟨k, s'⟩, h, hk, hs⟩ := mutant_ill_typed _ s p p' hok hm
+  simp only [expectedKind] at hk hs; rw [h, hk, hs]
+
+/-- (b) too many positional arguments for a callee with default-valued parameters -/
+theorem mutant_ill_typed_tooManyPositional (s : Site) (p p' : Prog)
+    (hok : typecheck p = .ok ()) (hm : mutate .tooManyPositional s p = some p') :
+    typecheck p' = .error ⟨.wrongArgCount, s⟩ := by
+  obtain ⟨⟨k, s'⟩, h, hk, hs⟩ := mutant_ill_typed _ s p p' hok hm
+  simp only [expectedKind] at hk hs; rw [h, hk, hs]
+
+/-- (c) a keyword argument duplicating a positional one -/
+theorem mutant_ill_typed_keywordDupPositional (s : Site) (p p' : Prog)
+    (hok : typecheck p = .ok ()) (hm : mutate .keywordDupPositional s p = some p') :
+    typecheck p' = .error ⟨.duplicateArg, s⟩ := by
+  obtain ⟨⟨k, s'⟩, h, hk, hs⟩ := mutant_ill_typed _ s p p' hok hm
+  simp only [expectedKind] at hk hs; rw [h, hk, hs]
+
+/-- (d) a parameter without default left out while later ones have defaults -/
+theorem mutant_ill_typed_omitRequired (s : Site) (p p' : Prog)
+    (hok : typecheck p = .ok ()) (hm : mutate .omitRequired s p = some p') :
+    typecheck p' = .error ⟨.wrongArgCount, s⟩ := by
+  obtain ⟨⟨k, s'⟩, h, hk, hs⟩ := mutant_ill_typed _ s p p' hok hm
+  simp only [expectedKind] at hk hs; rw [h, hk, hs]
+
 /-! ### non-vacuity: a program meeting the hypotheses, with an eligible site of every kind -/
 
 instance : DecidableEq (Except TypeErr Unit) := fun a b =>
@@ -158,27 +202,36 @@ instance : DecidableEq (Except TypeErr Unit) := fun a b =>
   | .error _, .ok _ => isFalse (by intro h; cases h)
 
 /-- ```
-C0: Category == with { f: (MachineInteger) -> MachineInteger; b: (MachineInteger) -> Boolean; }
-C1: Category == with { f: (MachineInteger) -> MachineInteger; }
-D0: C0 == add { f(x) == { return x; }  b(x) == { return (true@Boolean); } }
-D1: C1 == add { f(x) == { return f(x)$D0; } }
-F0(T: C1): C1 == add { f(x) == { return f(x)$T; } }
+C0: Category == with { f: (x: MachineInteger) -> MachineInteger; b: (MachineInteger) -> Boolean; }
+C1: Category == with { f: (x: MachineInteger) -> MachineInteger; }
+D0: C0 == add { f(a) == { return a; }  b(a) == (true@Boolean) }
+D1: C1 == add { f(a) == { return f(a)$D0; } }
+F0(T: C1): C1 == add { f(a) == { return f(a)$T; } }
 import from D0; import from D1;
 k: MachineInteger == (3@MachineInteger);
 v: MachineInteger := f(k)$D0;
 v := k;
+area(w: MachineInteger, h: MachineInteger == (1@MachineInteger)): MachineInteger == {
+    local c: Boolean := b(w); c => h; w }
+v := area(k, h == v);
+v := area(k);
 ``` -/
 def ex0 : Prog := [
-  .cat "C0" [⟨"f", [.mint], .mint⟩, ⟨"b", [.mint], .bool⟩],
-  .cat "C1" [⟨"f", [.mint], .mint⟩],
-  .dom "D0" "C0" [⟨"f", [("x", .mint)], .mint, [.ret (.var "x")]⟩,
-                  ⟨"b", [("x", .mint)], .bool, [.ret (.lit .bool 0)]⟩],
-  .dom "D1" "C1" [⟨"f", [("x", .mint)], .mint, [.ret (.app "f" (some "D0") [.var "x"])]⟩],
-  .functor "F0" "T" "C1" "C1" [⟨"f", [("x", .mint)], .mint, [.ret (.app "f" (some "T") [.var "x"])]⟩],
+  .cat "C0" [⟨"f", [⟨"x", .mint, none⟩], .mint, false⟩, ⟨"b", [⟨"y", .mint, none⟩], .bool, true⟩],
+  .cat "C1" [⟨"f", [⟨"x", .mint, none⟩], .mint, false⟩],
+  .dom "D0" "C0" [⟨"f", [⟨"a", .mint, none⟩], .mint, [.ret (.var "a")], false⟩,
+                  ⟨"b", [⟨"a", .mint, none⟩], .bool, [.value (.lit .bool 0)], true⟩],
+  .dom "D1" "C1" [⟨"f", [⟨"a", .mint, none⟩], .mint, [.ret (.app "f" (some "D0") [.var "a"] [])], false⟩],
+  .functor "F0" "T" "C1" "C1"
+    [⟨"f", [⟨"a", .mint, none⟩], .mint, [.ret (.app "f" (some "T") [.var "a"] [])], false⟩],
   .imp "D0", .imp "D1",
   .stmt (.defConst "k" .mint (.lit .mint 3)),
-  .stmt (.defVar "v" .mint (.app "f" (some "D0") [.var "k"])),
-  .stmt (.assign "v" (.var "k"))]
+  .stmt (.defVar "v" .mint (.app "f" (some "D0") [.var "k"] [])),
+  .stmt (.assign "v" (.var "k")),
+  .func ⟨"area", [⟨"w", .mint, none⟩, ⟨"h", .mint, some 1⟩], .mint,
+         [.defVar "c" .bool (.app "b" none [.var "w"] []), .exit "c" (.var "h"), .value (.var "w")], false⟩,
+  .stmt (.assign "v" (.app "area" none [.var "k", .var "v"] ["h"])),
+  .stmt (.assign "v" (.app "area" none [.var "k"] []))]
 
 example : typecheck ex0 = .ok () := by decide +kernel
 example : ProgWT ex0 := (checker_sound_complete ex0).1 (by decide +kernel)
@@ -198,6 +251,36 @@ example : (mutate (.assignConst "k") [9] ex0).map typecheck = some (.error ⟨.a
   decide +kernel
 example : (mutate (.wrongReturnType .str) [2, 0, 0] ex0).map typecheck =
     some (.error ⟨.wrongReturnType, [2, 0, 0]⟩) := by decide +kernel
+/-- value positions: bare-expression body, value of `c => v`, last expression of the `{…}` body -/
+example : (mutate (.wrongReturnType .str) [2, 1, 0] ex0).map typecheck =
+    some (.error ⟨.wrongReturnType, [2, 1, 0]⟩) := by decide +kernel
+example : (mutate (.wrongReturnType .str) [10, 1] ex0).map typecheck =
+    some (.error ⟨.wrongReturnType, [10, 1]⟩) := by decide +kernel
+example : (mutate (.wrongReturnType .bool) [10, 2] ex0).map typecheck =
+    some (.error ⟨.wrongReturnType, [10, 2]⟩) := by decide +kernel
+/-- (a) with defaults (`area(k, zz == v)`), without (`f(zz == k)$D0`), and for the anonymous
+signature `b: (MachineInteger) -> Boolean` (`b(zz == w)`, which the compiler ACCEPTS: recorded finding) -/
+example : (mutate (.unknownKeyword "zz") [11, 0] ex0).map typecheck =
+    some (.error ⟨.unknownKeyword, [11, 0]⟩) := by decide +kernel
+example : (mutate (.unknownKeyword "zz") [8, 0] ex0).map typecheck =
+    some (.error ⟨.unknownKeyword, [8, 0]⟩) := by decide +kernel
+example : (mutate (.unknownKeyword "zz") [10, 0, 0] ex0).map typecheck =
+    some (.error ⟨.unknownKeyword, [10, 0, 0]⟩) := by decide +kernel
+/-- (b) `area(k, 0, 0)` -/
+example : (mutate .tooManyPositional [12, 0] ex0).map typecheck =
+    some (.error ⟨.wrongArgCount, [12, 0]⟩) := by decide +kernel
+/-- (c) `area(k, h == v, w == 0)` -/
+example : (mutate .keywordDupPositional [11, 0] ex0).map typecheck =
+    some (.error ⟨.duplicateArg, [11, 0]⟩) := by decide +kernel
+/-- (d) `area(h == v)` and `area()` -/
+example : (mutate .omitRequired [11, 0] ex0).map typecheck =
+    some (.error ⟨.wrongArgCount, [11, 0]⟩) := by decide +kernel
+example : (mutate .omitRequired [12, 0] ex0).map typecheck =
+    some (.error ⟨.wrongArgCount, [12, 0]⟩) := by decide +kernel
+/-- a keyword may not be a value name of the calling scope: inside `area` the keyword `h` clashes -/
+example : typecheck [.func ⟨"area", [⟨"w", .mint, none⟩, ⟨"h", .mint, some 1⟩], .mint,
+    [.ret (.app "area" none [.var "w", .var "h"] ["h"])], false⟩] = .error ⟨.keywordClash, [0, 0, 0]⟩ := by
+  decide +kernel
 example : (mutate (.missingExport 1) [2] ex0).map typecheck = some (.error ⟨.missingExport, [2]⟩) := by
   decide +kernel
 example : (mutate (.paramLacksOp "b") [4, 0, 0, 0] ex0).map typecheck =
